@@ -13,4 +13,5 @@ def run(ctx, rep):
     objmodel.rule_internal_iterators(ctx, rep, "C03-R6")
     objmodel.rule_optional_groups_normalised(ctx, rep, "C03-R7")
     objmodel.rule_converters_convert_members(ctx, rep, "C03-R8")
+    objmodel.rule_optional_attributes_mapped(ctx, rep, "C03-R9")
     rep.undecided += ["that every value computed by host arithmetic lies in the JavaScript value domain for all inputs (e.g. complex results of **): a value property"]
